@@ -29,19 +29,23 @@ mod leaky {
     static A: Leaky = Leaky;
 }
 
-/// Verdict of a Lal-Reps harness.  First the sound one: an error counts as soon
-/// as the guessed prefix up to its round is realisable.  Then, under full
-/// consistency of all rounds, the same errors again: a counterexample to these
-/// is a complete real schedule and replays natively without junk.
+/// Verdict of a Lal-Reps harness.  The sound one: an error counts as soon as the
+/// guessed prefix up to its round is realisable.  On a separate branch (Kani's
+/// `assert!` also assumes its condition, so the first set would mask the second),
+/// the same errors under full consistency of all rounds: a counterexample to
+/// these is a complete real schedule and replays natively without junk.
 #[macro_export]
 macro_rules! lr_verdict {
     ($pid:literal, $( ($bit:expr, $msg:literal) ),* $(,)?) => {{
         let bad = $crate::common::vshim::lr_violation();
         let e = $crate::common::vshim::errors();
-        $( assert!(!(bad && e & $bit != 0), concat!($pid, ": ", $msg)); )*
-        assert!(!bad, concat!($pid, ": another error flag is set (see shim error codes)"));
-        kani::assume($crate::common::vshim::consistent());
-        $( assert!(e & $bit == 0, concat!($pid, ": [replayable] ", $msg)); )*
+        if kani::any::<bool>() {
+            $( assert!(!$crate::common::vshim::lr_violation_of($bit), concat!($pid, ": ", $msg)); )*
+            assert!(!bad, concat!($pid, ": another error flag is set (see shim error codes)"));
+        } else {
+            kani::assume($crate::common::vshim::consistent());
+            $( assert!(e & $bit == 0, concat!($pid, ": [replayable] ", $msg)); )*
+        }
     }};
 }
 
